@@ -40,7 +40,7 @@ OutcomeOfEv(e) ==
 \* does the spec's observation after the step equal the recorded follow-up?
 Follows(o, e) ==
   /\ o.ev = (IF e.then = "none" THEN "none" ELSE e.then)
-  /\ (o.ev \in {"handler", "raise"} => o.cls = e.cls)
+  /\ (o.ev \in {"handler", "raise"} => o.cls = e.cls \/ e.anycls)      \* anycls: a logged text, class not observable
   /\ (o.ev = "ret" => o.raw = e.raw /\ o.pk = e.pk)
 
 Load(t) ==
